@@ -57,6 +57,7 @@ class Frame:
         self.depth = depth
         self.returns: List[T] = []
         self.return_paths: List[tuple] = []   # path condition at each `return`
+        self.loops: List[dict] = []           # enclosing python loops: variable maps at `break` / `continue`
 
 
 class Event:
